@@ -116,7 +116,57 @@ pub fn run(tier: Tier) -> i32 {
     pt_sweep(&rep, tier);
     frag_lattice(&rep, tier);
     ext_lattice(&rep, tier);
+    limit_histories(&rep);
     rep.finish(true)
+}
+
+/// Histories under a consecutive-re-use limit: enable_re_use_label_with_max_consecutive(N) for N in {1, 2, 3, 254, 255},
+/// the same label sent N + 3 times (so the counter runs through every value up to and past the limit, including the
+/// top of its 8-bit range); before each send, every buffer size 0..=20 is tried on a clone through encap and encap_ext
+/// with the common clauses (no panic, Err leaves buffer and encapsulator unchanged)
+fn limit_histories(rep: &Report) {
+    let cases: Vec<(u8, Lbl, bool)> = [1u8, 2, 3, 254, 255].iter().flat_map(|&m| [L6A, L3A].into_iter().flat_map(move |l| [false, true].into_iter().map(move |e| (m, l, e)))).collect();
+    cases.par_iter().for_each(|&(max, l, via_ext)| {
+        let mut acc = Acc::default();
+        let mut enc = fast_enc();
+        enc.enable_re_use_label_with_max_consecutive(max);
+        let pd = pdu(5, 0);
+        let exts = [(0x0101u16, vec![])];
+        for k in 0..(max as usize + 3) {
+            for b in 0..=20usize {
+                for ext2 in [false, true] {
+                    let mut e2 = enc.clone();
+                    let sent = SENTINELS[b % 2];
+                    let mut buf = vec![sent; b];
+                    let out = if ext2 { do_encap_ext(&mut e2, &pd, 7, 0x0800, l, &mut buf, &exts) } else { do_encap(&mut e2, &pd, 7, 0x0800, l, &mut buf) };
+                    acc.states += 1;
+                    acc.transitions += 1;
+                    acc.calls += 1;
+                    acc.compared += 1;
+                    acc.outcome(&format!("limit-history:{}:{}", if ext2 { "encap_ext" } else { "encap" }, out.class()));
+                    let ec = ErrCheck { call: if ext2 { "encap_ext" } else { "encap" }, rep, rank: (k * 100 + b) as u64, reg: "re-use-limit-history".into() };
+                    ec.check(&out, &buf, sent, &enc, &e2, l, None, &|| {
+                        (format!("after enable_re_use_label_with_max_consecutive({}) and {} packets with label {}: {}(pdu_len=5, label={}, buffer={})", max, k, l.short(), if ext2 { "encap_ext" } else { "encap" }, l.short(), b),
+                         json!({"call": if ext2 { "encap_ext" } else { "encap" },"history":format!("enable_re_use_label_with_max_consecutive({}); {} x {}(label {}, 64-byte buffer)", max, k, if via_ext { "encap_ext" } else { "encap" }, l.short()),"pdu_len":5,"label":l.short(),"buffer_len":b}))
+                    });
+                }
+            }
+            let mut big = [0u8; 64];
+            let out = if via_ext { do_encap_ext(&mut enc, &pd, 7, 0x0800, l, &mut big, &exts) } else { do_encap(&mut enc, &pd, 7, 0x0800, l, &mut big) };
+            acc.calls += 1;
+            if !matches!(out, EncOut::Completed(_)) {
+                let ec = ErrCheck { call: if via_ext { "encap_ext" } else { "encap" }, rep, rank: k as u64, reg: "re-use-limit-history".into() };
+                if matches!(out, EncOut::Panic(_)) {
+                    ec.check(&out, &big, 0, &enc, &enc, l, None, &|| {
+                        (format!("after enable_re_use_label_with_max_consecutive({}) and {} packets with label {}: packet {} into a 64-byte buffer", max, k, l.short(), k + 1), json!({"history":format!("enable_re_use_label_with_max_consecutive({}); {} x {}(label {})", max, k + 1, if via_ext { "encap_ext" } else { "encap" }, l.short())}))
+                    });
+                }
+                break;
+            }
+        }
+        rep.merge(acc);
+    });
+    rep.part(json!({"part":"re-use limit histories","limits":[1,2,3,254,255],"labels":2,"packets":"limit + 3","buffers":"0..=20 on a clone before every packet, encap and encap_ext"}));
 }
 
 fn encap_lattice(rep: &Report, tier: Tier) {
